@@ -133,6 +133,8 @@ Definition ref_op (s : astate) (o : term) : astate * option str :=
     let kv := term_strs (term_nth o 2) in
     let merge := (fix go (m : list (str * str)) (l : list str) :=
                     match l with k :: v :: r => go (m_put m k v) r | _ => m end) in
+    if Nat.odd (length kv) then (s, None)       (* an odd number of items: an error that changes nothing *)
+    else
     match look s n with
     | Some (AScalar _) => (s, None)
     | Some (AArray m) => (store s n (AArray (merge m kv)), Some [])
